@@ -142,6 +142,10 @@ def gen_payload(rnd, L, rid, big_ok=False, newline_ok=True):
         return rnd.choice(["ab", "xyz ", "0"]) * rnd.randint(1, 400)
     if r < 0.86 and newline_ok:
         return "line1\nline2" + "\n" * rnd.randint(0, 2)
+    if r < 0.885:
+        # binary-looking content: carriage returns (alone and as CRLF), tabs, other C0 controls, DEL
+        return "".join(rnd.choice(["\r", "\r\n" if newline_ok else "\r", "\t", "\x1a", "\x7f", "\x01", "\x1b[0m", "a", "zz"])
+                       for _ in range(rnd.randint(1, 40)))
     if r < 0.9 and big_ok:
         n = rnd.choice([8191, 8192, 8193, 16383, 16384, 16385, 65535, 65536, 65537, 200000, 1 << 20, (1 << 22) - 7])
         if rnd.random() < 0.5:
